@@ -35,6 +35,14 @@ def gen_bitstream(rng, count, exhaustive_pairs=True):
                     ops.append("r %d" % w)
                     if tail > 0: ops.append("r %d" % tail)
                     lines.append("bs %d : %s" % (cap, " ; ".join(ops)))
+    # filled to the last bit, the last field ending exactly at the end of the buffer (a loop that runs once too often touches the byte behind it)
+    for cap in CAPS:
+        for first in (0, 3):
+            ops = ["ws"]; widths = []; used = 0
+            if first and first < cap: widths.append(first); ops.append("w %d %d" % (first, (1 << first) - 1)); used = first
+            while used < cap:
+                w = min(cap - used, rng.choice([8, 16, 24, 32, 5, 12])); widths.append(w); ops.append("w %d %d" % (w, rng.choice(values_for(rng, w)))); used += w
+            lines.append("bs %d : %s" % (cap, " ; ".join(ops + ["rs"] + ["r %d" % w for w in widths])))
     for _ in range(count):
         cap = rng.choice(CAPS)
         ops = ["ws"]; widths = []; used = 0
